@@ -1,7 +1,7 @@
 SPECIFICATION Spec
 CONSTANTS
   MaxDepth = 6
-  MaxTens = 9
+  MaxTens = 10
   Judge = FALSE
   Record = TRUE
   Dev = "none"
